@@ -128,9 +128,8 @@ type trk struct {
 //   - a path deleted on the branch and created again later (without a rename)
 //     is the same file (base and HEAD versions of that path are compared);
 //   - a path that was renamed away and later created again is a new file;
-//   - a rename onto a path that an earlier branch commit deleted: primary
-//     reading is the rename source; the old file at that path is an accepted
-//     alternative reading (the statement does not say which one "its file" is);
+//   - a rename onto a path that an earlier branch commit deleted: the origin
+//     is the rename source (the old file at that path was deleted);
 //   - a rename combined with an edit (Fuzzy): git may or may not report a
 //     rename, so "new file" is an accepted alternative reading.
 func (h History) Ledger() []Track {
@@ -154,13 +153,10 @@ func (h History) Ledger() []Track {
 				t.fuzzy = true
 				t.altNew = true
 			}
-			if d, ok := dormant[rn[1]]; ok {
+			if _, ok := dormant[rn[1]]; ok {
+				// the statement says "following file renames": the rename source is
+				// the file's origin, not the file that used to live at this path
 				t.overOld = true
-				if d.origin != "" {
-					t.alt = append(t.alt, d.origin)
-				} else {
-					t.altNew = true
-				}
 			}
 			cur[rn[1]] = t
 			src[rn[0]] = true
@@ -262,4 +258,76 @@ func (h History) Key() string {
 		}
 	}
 	return b.String()
+}
+
+// LostRenameSources returns the fork-point paths Q for which the branch
+//  1. deleted some path P,
+//  2. later renamed Q (or the file Q had become) onto P,
+//  3. and touched P again in a still later commit (edit, delete or rename).
+//
+// This is the structural class behind finding C20-F2 (pint continues the stale
+// "P was deleted" change instead of the rename, and forgets Q).
+func (h History) LostRenameSources() []string {
+	type t struct {
+		origin  string
+		overOld bool
+	}
+	cur := map[string]*t{}
+	dormant := map[string]bool{}
+	for _, f := range h.Fork() {
+		cur[f.Path] = &t{origin: f.Path}
+	}
+	lost := map[string]bool{}
+	prev := h.Fork()
+	for _, c := range h.Branch {
+		text := func(tr Tree, p string) (string, bool) {
+			f, ok := tr.Get(p)
+			return f.Text, ok
+		}
+		src := map[string]bool{}
+		dst := map[string]bool{}
+		for _, rn := range c.Renames {
+			src[rn[0]], dst[rn[1]] = true, true
+		}
+		// touches of files that sit on a once-deleted path since an earlier commit
+		for p, tr := range cur {
+			if !tr.overOld || tr.origin == "" {
+				continue
+			}
+			before, _ := text(prev, p)
+			after, ok := text(c.Tree, p)
+			if !ok || src[p] || before != after {
+				lost[tr.origin] = true
+			}
+		}
+		for _, rn := range c.Renames {
+			tr := cur[rn[0]]
+			if tr == nil {
+				tr = &t{}
+			}
+			delete(cur, rn[0])
+			if dormant[rn[1]] {
+				tr.overOld = true
+			}
+			cur[rn[1]] = tr
+		}
+		for _, f := range prev {
+			if _, ok := c.Tree.Get(f.Path); !ok && !src[f.Path] {
+				dormant[f.Path] = true
+				delete(cur, f.Path)
+			}
+		}
+		for _, f := range c.Tree {
+			if _, ok := prev.Get(f.Path); !ok && !dst[f.Path] {
+				cur[f.Path] = &t{}
+			}
+		}
+		prev = c.Tree
+	}
+	out := make([]string, 0, len(lost))
+	for p := range lost {
+		out = append(out, p)
+	}
+	sort.Strings(out)
+	return out
 }
